@@ -123,6 +123,7 @@ func flistOne(dir string, tr *core.Tracer, sc *flScen) (int, error) {
 				if j > 0 {
 					s.Yield("w.next")
 				}
+				emit("putb", core.Ev{"en": e, "err": ""}) // invocation: from here on the entry may legitimately show up anywhere
 				err := fl.Put(types.Block{Offset: types.Position(100 * e), Size: types.Size(e)})
 				emit("put", core.Ev{"en": e, "err": errStr(err)})
 			}
